@@ -115,6 +115,8 @@ type Exec struct {
 	frozen     int
 	frozenMark int
 	wlocks     map[*Object]int
+	csReads    map[*Object]map[int]bool // shared fields read since the write lock was taken
+	csRule     bool                     // check-then-act rule enabled (Freeze mode 1 harnesses that ask for it)
 	varRange   map[string]ival
 	funcs      map[string]bool
 }
@@ -936,6 +938,9 @@ func (x *Exec) checkAccess(p Ptr, size int, what string) {
 	}
 	if x.frozen != 0 && size > 0 && o.ID <= x.frozenMark && isWriteAccess(what) {
 		x.frozenWrite(o.String(), what)
+	}
+	if x.csRule && x.frozen == 1 && size > 0 && p.Off.IsConst() {
+		x.csAccess(o, int(p.Off.Val), size, isWriteAccess(what), what)
 	}
 	if p.Off.IsConst() && o.LSize == nil {
 		off := p.Off.SVal()
